@@ -643,7 +643,7 @@ class FGen:
         self.lits = lits
         self.num = numeral_nts(cg)
         self.cnt = 0
-        o = dict(mexpr=0.4, opt=0.3, preds=True, count=True, numq=0.0, connectives=("and", "or", "not"),
+        o = dict(mexpr=0.4, opt=0.3, preds=True, count=True, numq=0.0, connectives=("and", "or", "not"), p_forall=0.5,
                  unused=0.0, smt_ops=("eq", "eqv", "len", "toint", "prefix", "arith"), nth_level=True, max_depth=3)
         o.update(opts or {})
         self.o = o
@@ -719,7 +719,7 @@ class FGen:
             mx, extra = (None, [])
             if chance(rnd, o["mexpr"]):
                 mx, extra = self.mexpr_for(T)
-            q = "forall" if chance(rnd, 0.5) else "exists"
+            q = "forall" if chance(rnd, o["p_forall"]) else "exists"
             inner_scope = scope + [(v, T)] + extra
             if chance(rnd, o["unused"]):
                 body = self.formula(scope, depth - 1, numvars)
